@@ -8,6 +8,6 @@ echo "demo unchanged: $(cd $D && PYTHONPATH=$R timeout 300 /venv/bin/python demo
 git -C $R apply $D/patch.diff || { echo "PATCH DOES NOT APPLY"; exit 3; }
 echo "tests: $(cd $R && PYTHONPATH=$R timeout 900 /venv/bin/python -m pytest -q -p no:cacheprovider --timeout=900 2>&1 | tail -1)"
 echo "demo changed: $(cd $D && PYTHONPATH=$R timeout 300 /venv/bin/python demo.py 2>&1 | tail -1 | cut -c1-150)"
-cd /verif && VERIF_REPO=$R timeout 1500 ./check $P 2>&1 | grep "VIOLATION\|PASS\|FAIL\|violation \[\|broken" | cut -c1-220 | head -6
+cd ${VERIF_DIR:-/verif} && VERIF_REPO=$R timeout 1500 ./check $P 2>&1 | grep "VIOLATION\|PASS\|FAIL\|violation \[\|broken" | cut -c1-220 | head -6
 git -C $R checkout -q -- .
 rm -rf $MOLLI_HOME
